@@ -192,6 +192,19 @@ def evaluate(case) -> Result:
             c1 = w.handshake_in("peer1.example", auth=auth_ids, acct=acct_ids, ip="10.1.1.1", hbh=0x101)
             c2 = w.handshake_in("peer2.example", auth=auth_ids, acct=acct_ids, ip="10.1.1.2", hbh=0x102)
         sender = c1 if case["sender_host"] == "peer1.example" else c2
+        sender_conns = [sender]
+        if case.get("sender_overlap") and case.get("sender_dir") != "out":
+            # the sender comes back on a new connection before the node has noticed that the old one is dead;
+            # the request arrives on the new one.  (Which of the two connections carries the application's
+            # answer is C09's subject and a known finding; here only delivery and the node's own answers count.)
+            ip_ = "10.1.1.1" if case["sender_host"] == "peer1.example" else "10.1.1.2"
+            newer = w.handshake_in(case["sender_host"], auth=auth_ids, acct=acct_ids, ip=ip_, hbh=0x1f3)
+            if newer is not None:
+                sender = newer
+                sender_conns.append(newer)
+                res.classes.append("sender:overlapping-reconnect")
+                if case["sender_overlap"] == "old-closed":
+                    w.peer_close(sender_conns[0])
         n0 = len(sender.refresh())
         noise = case.get("noise", [])
         if "DWR-before" in noise:
@@ -226,7 +239,9 @@ def evaluate(case) -> Result:
         if base_seen:
             res.v("C08/base-protocol-delivered", f"a base-protocol message reached an application: {base_seen[0]['code']}")
         answers = [f for f in sender.refresh()[n0:] if not f.is_request and f.h["hbh"] == hbh and f.code == k.code]
-        other_conn = c2 if sender is c1 else c1
+        if len(sender_conns) > 1:
+            answers += [f for f in sender_conns[0].refresh() if not f.is_request and f.h["hbh"] == hbh and f.code == k.code]
+        other_conn = c2 if sender_conns[0] is c1 else c1
         stray = [f for f in other_conn.refresh() if f.h["hbh"] == hbh and f.code == k.code]
         if stray:
             res.v("C08/answer-on-other-connection", f"{[f.brief() for f in stray]}")
@@ -353,6 +368,16 @@ def shard_main(shard, nshards, tier, scale):
             hyp.run_given(full_spec_strategy(k), obody, 1, derive_seed(PID, "ob", k.__name__, layout, sender), rec=rec)
 
     for k in classes[shard::nshards]:
+        for mode_ in ("both-open", "old-closed"):
+            def ovbody(spec, k=k, mode_=mode_):
+                case = {"cls": k.__name__, "spec": spec, "removed": [], "realm": "example", "app_id": LAYOUTS[0]["apps"][0][0],
+                        "sender_host": "peer1.example", "layout": 0, "sender_overlap": mode_}
+                res = evaluate(case)
+                res.classes.append("overlap-grid")
+                record(rec, case, res)
+            hyp.run_given(full_spec_strategy(k), ovbody, 1, derive_seed(PID, "ov", k.__name__, mode_), rec=rec)
+
+    for k in classes[shard::nshards]:
         def tbody(spec, k=k):
             case = {"cls": k.__name__, "spec": spec, "removed": [], "realm": "example", "app_id": LAYOUTS[0]["apps"][0][0],
                     "sender_host": "peer1.example", "layout": 0, "t_flag": True}
@@ -387,6 +412,7 @@ def shard_main(shard, nshards, tier, scale):
                 "app_kind": draw(st.sampled_from(["basic", "threading"])),
                 "noise": draw(st.lists(st.sampled_from(["DWR-before", "DWR-after", "DWA-after", "await-DWA"]), max_size=2, unique=True)),
                 "sender_dir": draw(st.sampled_from(["in", "in", "out"])), "t_flag": draw(st.sampled_from([False, False, True])),
+                "sender_overlap": draw(st.sampled_from([None, None, None, "both-open", "old-closed"])),
                 "sender_spelling": draw(st.sampled_from([None, "UPPER", "Title"])),
                 "seed": draw(st.integers(0, 3))}
 
@@ -403,7 +429,7 @@ def run(tier, scale=1.0):
     rec = Recorder(PID)
     for d in hyp.pool_run(shard_main, (tier, scale)):
         rec.merge(d)
-    required = {"t-flag:new-request": 1, "sender:awaiting-dwa": 1, "sender:outbound-respelled": 1, "layout:mixed-case-realm": 1, "expect:deliver": 1, "expect:5005": 1, "expect:3003": 1, "expect:3007": 1, "handler:raise": 1,
+    required = {"sender:overlapping-reconnect": 1, "t-flag:new-request": 1, "sender:awaiting-dwa": 1, "sender:outbound-respelled": 1, "layout:mixed-case-realm": 1, "expect:deliver": 1, "expect:5005": 1, "expect:3003": 1, "expect:3007": 1, "handler:raise": 1,
                 "layout:same-id-two-peers": 1, "layout:three-apps": 1, "app:threading": 1, "removed:2": 1}
     return finish(rec, tier=tier, level="exploration", rule=RULE, assumptions=ASSUME, t0=t0,
                   required_classes=required,
